@@ -13,8 +13,10 @@ package trzsz
 // decide.  Trees live under /dev/shm and are removed after every run.
 
 import (
+	"bufio"
 	"bytes"
 	"crypto/sha256"
+	"encoding/json"
 	"fmt"
 	"io"
 	"math/rand"
@@ -924,7 +926,7 @@ func c15TVShard(d *vCtx, shard, nshards int) error {
 		traces[i] = t
 	}
 	rng := d.rng(15 + 1000*int64(shard))
-	defer debug.SetGCPercent(debug.SetGCPercent(800)) // the zlib writers of encodeString are the only garbage
+	defer debug.SetGCPercent(debug.SetGCPercent(400)) // the zlib writers of encodeString are the only garbage
 	stats := map[string]int{}
 	run := 0
 	next := func() (*vTrace, string) {
@@ -1129,8 +1131,31 @@ func c15MBT(d *vCtx) error {
 }
 
 func c15MBTShard(d *vCtx, shard, nshards int) error {
-	cases, err := vReadNDJSON(d.pStr("cases", d.path("cases.ndjson")))
+	// only this shard's lines are decoded (the file holds every case)
+	cf, err := os.Open(d.pStr("cases", d.path("cases.ndjson")))
 	if err != nil {
+		return err
+	}
+	cases := map[int]map[string]any{}
+	ncases := 0
+	sc := bufio.NewScanner(cf)
+	sc.Buffer(make([]byte, 1<<20), 1<<28)
+	for sc.Scan() {
+		if len(sc.Bytes()) == 0 {
+			continue
+		}
+		if ncases%nshards == shard {
+			var m map[string]any
+			if err := json.Unmarshal(sc.Bytes(), &m); err != nil {
+				cf.Close()
+				return err
+			}
+			cases[ncases] = m
+		}
+		ncases++
+	}
+	cf.Close()
+	if err := sc.Err(); err != nil {
 		return err
 	}
 	root, err := os.MkdirTemp("/dev/shm", "c15mbt-")
@@ -1142,14 +1167,16 @@ func c15MBTShard(d *vCtx, shard, nshards int) error {
 	}
 	defer os.RemoveAll(root)
 	rng := d.rng(16)
-	defer debug.SetGCPercent(debug.SetGCPercent(800))
+	defer debug.SetGCPercent(debug.SetGCPercent(400))
 	var mism []c15Mism
 	replayed, steps := 0, 0
 	fdExcessCases, fdExcessMax, fdExcessCase := 0, 0, -1
-	for ci, c := range cases {
-		if ci%nshards != shard {
+	for ci := 0; ci < ncases; ci++ {
+		c, ok := cases[ci]
+		if !ok {
 			continue
 		}
+		delete(cases, ci)
 		ents, _ := c["entries"].([]any)
 		tree := &c15Tree{Top: c15Name(rng, ci%50)}
 		phi := &c15Phi{}
